@@ -1,0 +1,45 @@
+//go:build verif
+
+// Contracts for the deductive verifier in /verif (gvc). Comment-only: this file is compiled only
+// under the build tag `verif` and contains no code.
+package reporting
+
+// ---- C19: excerpt and caret -------------------------------------------------------------------
+//
+// Window of the original line that survives truncation, as a function of the line length L, the
+// display limit M and the 0-based reported byte p0 (helper definitions, derived from the code):
+
+//@ pure func c19p0(L int, pos int) int = pos-1 < 0 ? 0 : (pos-1 >= L ? L-1 : pos-1)
+//@ pure func c19lo(L int, M int, p0 int) int = p0 < M-3 ? 0 : (p0 >= L-M+3 ? L-M+3 : p0-(M-3)/2)
+//@ pure func c19hi(L int, M int, p0 int) int = p0 < M-3 ? M-3 : (p0 >= L-M+3 ? L : p0+((M-3)-(M-3)/2))
+//@ pure func c19pre(lo int) string = lo > 0 ? "..." : ""
+//@ pure func c19suf(hi int, L int) string = hi < L ? "..." : ""
+
+//@ func truncateString
+//@   props C19 C10
+//@   requires maxLen > 3
+//@   let L = len(s)
+//@   let p0 = c19p0(len(s), pos)
+//@   let lo = c19lo(len(s), maxLen, c19p0(len(s), pos))
+//@   let hi = c19hi(len(s), maxLen, c19p0(len(s), pos))
+//@   ensures L <= maxLen ==> result == s
+//@   ensures L > maxLen ==> len(result) <= maxLen + 6
+//@   ensures L > maxLen ==> 0 <= lo && lo <= p0 && p0 < hi && hi <= L
+//@   ensures L > maxLen ==> result == c19pre(lo) + s[lo:hi] + c19suf(hi, L)
+//@   assigns nothing
+
+//@ func calculateDisplayColumn
+//@   props C19 C10
+//@   requires maxLen > 3
+//@   let L = len(originalLine)
+//@   let p0 = c19p0(len(originalLine), originalPos)
+//@   let lo = c19lo(len(originalLine), maxLen, c19p0(len(originalLine), originalPos))
+//@   ensures L <= maxLen ==> result == originalPos
+//@   ensures L > maxLen && originalPos >= 1 ==> result == len(c19pre(lo)) + (p0 - lo) + 1
+//@   ensures L > maxLen && originalPos < 1 ==> result == 1
+//@   assigns nothing
+
+// The property itself, over the two contracts: for a line longer than the limit and a column on the
+// line, the caret column d computed by calculateDisplayColumn points, inside the string r returned by
+// truncateString, at the very byte of the original line that was reported.
+//@ lemma c19_caret_on_reported_byte C19: forall s string, M int, pos int :: M > 3 && len(s) > M && 1 <= pos && pos <= len(s) ==> 1 <= len(c19pre(c19lo(len(s), M, pos-1))) + (pos-1 - c19lo(len(s), M, pos-1)) + 1 && len(c19pre(c19lo(len(s), M, pos-1))) + (pos-1 - c19lo(len(s), M, pos-1)) + 1 <= len(c19pre(c19lo(len(s), M, pos-1)) + s[c19lo(len(s), M, pos-1):c19hi(len(s), M, pos-1)] + c19suf(c19hi(len(s), M, pos-1), len(s))) && (c19pre(c19lo(len(s), M, pos-1)) + s[c19lo(len(s), M, pos-1):c19hi(len(s), M, pos-1)] + c19suf(c19hi(len(s), M, pos-1), len(s)))[len(c19pre(c19lo(len(s), M, pos-1))) + (pos-1 - c19lo(len(s), M, pos-1))] == s[pos-1]
